@@ -373,10 +373,30 @@ def gen_c03(tier, seed):
             regs = rnd_regs(r, psw_of(r.choice(allflags())))
             regs.update(regsx)
             g.add(setup_ops(regs, memx, ins(OP['EXTFW'], lit(7), lit(4), so, do) + [0x70]) + ['st', 'rw:%x' % (DATA + 0x100)], 'pos23')
+    # expanded types across three and four operands: X on one operand, a different Y later, then un-prefixed operands
+    ets = list(ETYPE)
+    for x in ets:
+        for y in ets:
+            for opname in ('ADDW3', 'ORW3', 'SUBH3', 'ANDB3', 'MULW3'):
+                for pat in ((x, y, None), (x, None, None), (None, y, None), (x, None, y)):
+                    regs = rnd_regs(r, psw_of(r.choice(allflags())))
+                    regs[0] = r.choice(BVAL[4]); regs[1] = r.choice(BVAL[4]); regs[2] = DATA + 0x100
+                    o = [reg(0), reg(1), r.choice([regdef(2), reg(3), absa(DATA + 0x104)])]
+                    o = [ex(t, oo) if t else oo for t, oo in zip(pat, o)]
+                    g.add(setup_ops(regs, [(DATA + 0xfc, be(0xa5a5a5a5, 4) * 4)], ins(OP[opname], *o) + [0x70, 0x70]) +
+                          ['st', 'rw:%x' % (DATA + 0x100), 'rw:%x' % (DATA + 0x104), 'rw:%x' % (DATA + 0xfc)], 'etype3')
+            for pat in ((x, y, None, None), (None, x, y, None), (x, None, y, None)):
+                regs = rnd_regs(r, psw_of(r.choice(allflags())))
+                regs[0] = r.randrange(32); regs[1] = r.randrange(32); regs[2] = r.choice(BVAL[4]); regs[4] = DATA + 0x100
+                o = [reg(0), reg(1), reg(2), r.choice([regdef(4), reg(3)])]
+                o = [ex(t, oo) if t else oo for t, oo in zip(pat, o)]
+                g.add(setup_ops(regs, [(DATA + 0xfc, be(0xa5a5a5a5, 4) * 4)], ins(OP['EXTFW'], *o) + [0x70, 0x70]) +
+                      ['st', 'rw:%x' % (DATA + 0x100), 'rw:%x' % (DATA + 0x104), 'rw:%x' % (DATA + 0xfc)], 'etype4')
     return g.result('MOVB/MOVH/MOVW with every pair of the 17 source x 17 destination addressing-mode forms (literal and immediate '
                     'destinations included), with and without each expanded-type prefix on either operand, all base registers, '
-                    'boundary displacements of every width, MOVAW / PUSHAW address probes at wrap-around addresses, and operand '
-                    'positions 2-3 via EXTFW.')
+                    'boundary displacements of every width, MOVAW / PUSHAW address probes at wrap-around addresses, operand '
+                    'positions 2-3 via EXTFW, and every ordered pair of expanded types spread over three- and four-operand instructions '
+                    '(prefix, different prefix, then un-prefixed operands).')
 
 
 # ----------------------------------------------------------------------------- C04 (decode engine)
